@@ -222,18 +222,61 @@ func runC17(e *Env) {
 		return
 	}
 	D := load.FuncName(fn)
-	// R = the path the producer returns on success: one call result in the producer
-	var R ssa.Value
+	// R = the published name: the value among those the producer returns on success that (through its aliases in
+	// helpers) is the destination of an os.Rename or is created directly; every success return must yield R.
+	var cands []ssa.Value
 	for _, ret := range flow.Returns(fn) {
 		rs := flow.RetResults(ret)
 		if len(rs) != 2 || !flow.IsNilConst(rs[1]) {
 			continue
 		}
-		if R != nil && rs[0] != R {
-			r.Unknown("E3.publish", D+"/R", p.Pos(ret.Pos()), "success returns yield different path values")
-			return
+		dup := false
+		for _, c := range cands {
+			if c == rs[0] {
+				dup = true
+			}
 		}
-		R = rs[0]
+		if !dup {
+			cands = append(cands, rs[0])
+		}
+	}
+	isWritten := func(al map[ssa.Value]bool) bool {
+		for _, f := range p.SrcFuncs(load.PkgProfiler) {
+			for _, c := range flow.Calls(f) {
+				args := c.Common().Args
+				if flow.CalleeIs(c, "os", "Rename") && len(args) == 2 && al[args[1]] {
+					return true
+				}
+				if (flow.CalleeIs(c, "os", "Create") || flow.CalleeIs(c, "os", "OpenFile") || flow.CalleeIs(c, "os", "WriteFile")) && len(args) > 0 && al[args[0]] {
+					return true
+				}
+			}
+		}
+		return false
+	}
+	var R ssa.Value
+	for _, c := range cands {
+		if isWritten(aliasesOf(p, load.PkgProfiler, c)) {
+			if R != nil {
+				r.Unknown("E3.publish", D+"/R", p.Pos(fn.Pos()), "more than one returned path is written by the producer")
+				return
+			}
+			R = c
+		}
+	}
+	if R == nil && len(cands) == 1 {
+		R = cands[0]
+	}
+	if R == nil {
+		r.Unknown("E3.publish", D+"/R", p.Pos(fn.Pos()), "none of the paths the producer returns is the one it writes")
+		return
+	}
+	for _, ret := range flow.Returns(fn) {
+		rs := flow.RetResults(ret)
+		if len(rs) == 2 && flow.IsNilConst(rs[1]) && rs[0] != R {
+			r.Bad("E3.publish", D+"/returns-unpublished-path", p.Pos(ret.Pos()),
+				"the producer returns, as the disassembly to parse, a file other than the cache path it publishes by rename (for example any file found by a directory search): temporary files of an interrupted run carry the valid hash line and would be trusted")
+		}
 	}
 	var rcall *ssa.Call
 	if ex, ok := R.(*ssa.Extract); ok {
@@ -306,7 +349,7 @@ func runC17(e *Env) {
 		if !flow.IsNilConst(rs[len(rs)-1]) {
 			continue
 		}
-		if nDirect > 0 {
+		if nDirect > 0 || rs[0] != R {
 			continue // already reported
 		}
 		viaRename := len(renames) > 0 && successDominates(fn, ret.Block(), isPublish, 0)
